@@ -849,6 +849,106 @@ def position_and_nesting_stream(ctx, res):
                             "(the path is not the full dotted path from the root)", dict(case, ref_path=err.ref_path, text=str(err)[:100]))
 
 
+def moved_and_sub_loaded_stream(ctx, res):
+    """the path is the one from the ROOT, and the one the field has NOW: (a) a document loaded into a sub-configuration
+    (`cfg.app.db.loads(doc)`) that names a missing include file, or holds a bad value, is reported as `app.db.include` / `app.db.port`;
+    (b) items taken over from a list of ANOTHER field of the same configuration (`pool.standby = pool.active`) are named after the
+    list that holds them now; (c) a configuration object whose insertion into a list was refused stays where it was: later
+    rejections inside it are still named by its own place (`primary.port`), not by the list that refused it"""
+    import cincoconfig as cc
+    tmp = ctx.tmpdir()
+    # (a)
+    for depth in (1, 2):
+        for what in ("missing-include", "bad-value"):
+            for fmt in ("json", "yaml"):
+                s = cc.Schema()
+                s.app.db.include = cc.IncludeField(startdir=tmp)
+                s.app.db.port = cc.PortField(default=1)
+                s.app.name = cc.StringField(default="n")
+                cfg = s()
+                target = cfg.app.db if depth == 2 else cfg.app
+                body = {"include": "no-such-file." + fmt} if what == "missing-include" else {"port": "not a port"}
+                tree = body if depth == 2 else {"db": body}
+                want = "app.db.include" if what == "missing-include" else "app.db.port"
+                case = {"stream": "sub-loaded", "loaded_into": "app.db" if depth == 2 else "app", "what": what, "fmt": fmt, "expected": want}
+                res.case(stable(case), kind="sub-loaded:" + what)
+                try:
+                    target.loads(cc.ConfigFormat.get(fmt).dumps(None, tree), format=fmt)
+                    err = None
+                except Exception as e:  # noqa
+                    err = e
+                if err is None:
+                    res.violate("C15:position:accepted", "a document with a missing include file / a bad value was accepted", case)
+                elif not isinstance(err, cc.ValidationError):
+                    res.violate("C15:not-validation-error", "a rejected load surfaced as %s" % type(err).__name__, case)
+                elif err.ref_path != want or not str(err).startswith(want):
+                    res.violate("C15:path-not-from-root:sub-loaded", "the error of a document loaded into a sub-configuration does not name the full path from the root",
+                                dict(case, ref_path=err.ref_path, text=str(err)[:100]))
+    # (b), (c)
+    node = cc.Schema()
+    node.host = cc.StringField(default="h")
+    node.port = cc.PortField(default=80)
+    node.label = cc.StringField(required=True, default="l")
+    for typed in (False, True):
+        T = cc.make_type(node, "MovedNode") if typed else node
+        s = cc.Schema()
+        s.pool.active = cc.ListField(T, default=lambda: [])
+        s.pool.standby = cc.ListField(T, default=lambda: [])
+        s.primary = T
+        for how in ("assign-list", "assign-copy"):
+            cfg = s()
+            cfg.pool.active = [{"host": "a"}, {"host": "b"}]
+            try:
+                if how == "assign-list":
+                    cfg.pool.standby = cfg.pool.active
+                else:
+                    cfg.pool.standby = cfg.pool.active.copy()
+                cfg.pool.active = []                  # (while both lists hold the items either name would be a true one)
+                item = cfg.pool.standby[1]
+                item.port = "not a port"
+                err = None
+            except cc.ValidationError as e:
+                err = e
+            except Exception as e:  # noqa
+                err = e
+            case = {"stream": "moved-items", "config_type": typed, "how": how, "expected": "pool.standby[1].port"}
+            res.case(stable(case), kind="moved-items:" + how)
+            if not isinstance(err, cc.ValidationError):
+                res.violate("C15:not-validation-error", "a rejected value inside a taken-over item surfaced as %r" % (type(err).__name__ if err else None), case)
+            elif err.ref_path != "pool.standby[1].port":
+                res.violate("C15:stale-path:taken-over-items", "items taken over from a list of another field are still named after the list they came from",
+                            dict(case, ref_path=err.ref_path))
+        for op in ("append", "insert", "setitem"):
+            cfg = s()
+            cfg.pool.active = [{"host": "a"}]
+            cfg.primary = T(host="p")
+            obj = cfg.primary
+            obj._data["label"] = None                 # the object no longer meets its schema's rule (stands for any later edit): the list must refuse it
+            try:
+                if op == "append":
+                    cfg.pool.active.append(obj)
+                elif op == "insert":
+                    cfg.pool.active.insert(0, obj)
+                else:
+                    cfg.pool.active[0] = obj
+                refused = False
+            except Exception:  # noqa
+                refused = True
+            case = {"stream": "refused-object", "config_type": typed, "op": op, "expected": "primary.port"}
+            res.case(stable(case), kind="refused-object:" + op)
+            if not refused:
+                res.hist["refused-object:accepted"] += 1
+                continue
+            try:
+                cfg.primary.port = "not a port"
+                err = None
+            except Exception as e:  # noqa
+                err = e
+            if not isinstance(err, cc.ValidationError) or err.ref_path != "primary.port":
+                res.violate("C15:stale-path:refused-object", "after a list refused a configuration object, rejections inside that object are named by the list that refused it",
+                            dict(case, ref_path=getattr(err, "ref_path", None)))
+
+
 def run(ctx, n_quick=250, n_thorough=8000):
     res = Result()
     P.run_stream(ctx, res, "C15", ctx.n(n_quick, n_thorough), oracle, gen_ops=gen_ops, ops_len=(8, 20))
@@ -858,6 +958,7 @@ def run(ctx, n_quick=250, n_thorough=8000):
     guard(res, "C15", merged_and_standalone_stream, ctx, res)
     guard(res, "C15", links_stream, ctx, res, ctx.n(120, 4000))
     guard(res, "C15", position_and_nesting_stream, ctx, res)
+    guard(res, "C15", moved_and_sub_loaded_stream, ctx, res)
     return res
 
 
